@@ -16,6 +16,7 @@ import (
 
 	"github.com/kercylan98/vivid"
 	"github.com/kercylan98/vivid/internal/remoting"
+	"github.com/kercylan98/vivid/internal/remoting/serialize"
 	"github.com/kercylan98/vivid/pkg/log"
 	"github.com/kercylan98/vivid/verif/internal/hlog"
 	"github.com/kercylan98/vivid/verif/internal/vstat"
@@ -70,11 +71,13 @@ func TestC13Frames(t *testing.T) {
 		hostileSeen := false
 		for i := 0; i < nFrames; i++ {
 			body := envEnc
+			intact := true
 			switch rapid.IntRange(0, 4).Draw(rt, "body") {
 			case 0:
-				body = envEnc[:rapid.IntRange(0, len(envEnc)).Draw(rt, "trunc")]
+				n := rapid.IntRange(0, len(envEnc)).Draw(rt, "trunc")
+				body, intact = envEnc[:n], n == len(envEnc)
 			case 1:
-				body = rapid.SliceOfN(rapid.Byte(), 0, 64).Draw(rt, "garbage")
+				body, intact = rapid.SliceOfN(rapid.Byte(), 0, 64).Draw(rt, "garbage"), false
 			}
 			var l uint32
 			kind := rapid.SampledFrom([]string{"exact", "exact", "hostile", "hostile", "off-by-one", "limit"}).Draw(rt, "len")
@@ -92,7 +95,7 @@ func TestC13Frames(t *testing.T) {
 			binary.BigEndian.PutUint32(hdr[:], l)
 			stream = append(append(stream, hdr[:]...), body...)
 			plan = append(plan, fmt.Sprintf("%s:%#x+%dB", kind, l, len(body)))
-			if kind == "exact" && len(body) == len(envEnc) && len(body) > 0 && !hostileSeen {
+			if kind == "exact" && intact && len(body) > 0 && !hostileSeen {
 				validBefore++
 			} else {
 				hostileSeen = true
@@ -102,9 +105,11 @@ func TestC13Frames(t *testing.T) {
 		persist("TestC13Frames", desc+fmt.Sprintf(" stream=%x", stream[:min(len(stream), 400)]))
 		f := &failer{rt.Fatalf, func() string { return desc }}
 		a, b := net.Pipe()
+		wrote := make(chan string, 1)
 		go func() {
-			_, _ = b.Write(stream)
+			n, err := b.Write(stream)
 			_ = b.Close()
+			wrote <- fmt.Sprintf("wrote %d of %d bytes, err %v", n, len(stream), err)
 		}()
 		_ = a.SetDeadline(time.Now().Add(5 * time.Second))
 		h := &frameHandler{}
@@ -112,6 +117,7 @@ func TestC13Frames(t *testing.T) {
 		ctx := &frameCtx{}
 		before := allocated()
 		steps := 0
+		var stepLog []string
 		for ; steps < nFrames+2; steps++ {
 			var fatal bool
 			err, pv, st := safe(func() error {
@@ -123,7 +129,7 @@ func TestC13Frames(t *testing.T) {
 				f.fail("decode|panic|frame|"+panicSite(st), "the connection's frame reader panicked at frame %d of the stream (%v): %v", steps, plan, short(fmt.Sprint(pv), 300))
 				break
 			}
-			_ = err
+			stepLog = append(stepLog, fmt.Sprintf("step %d: fatal=%v err=%v kills=%d handled=%d", steps, fatal, err, ctx.kills, h.got))
 			if fatal || ctx.kills > 0 {
 				break
 			}
@@ -133,7 +139,8 @@ func TestC13Frames(t *testing.T) {
 			f.fail("decode|alloc|frame", "the frame reader allocated %d bytes for a stream of %d bytes (%v)", delta, len(stream), plan)
 		}
 		if h.got < validBefore {
-			f.fail("decode|frame|valid-frame-dropped", "%d valid frames in front of the first hostile one, the envelope handler got %d (%v)", validBefore, h.got, plan)
+			_, _, _, _, _, _, derr := serialize.DecodeEnvelopWithRemoting(codec, envEnc)
+			f.fail("decode|frame|valid-frame-dropped", "%d valid frames in front of the first hostile one, the envelope handler got %d (%v); decoding the envelope directly gives: %v; steps: %v; writer: %s; stream=%x", validBefore, h.got, plan, derr, stepLog, <-wrote, stream)
 		}
 		vstat.Add("frames_fed", int64(nFrames))
 		vstat.Case(vstat.Hash(desc), hostileSeen, []string{"frame-stream"}, func() any { return desc })
